@@ -82,7 +82,7 @@ def mergeInternal (c : List (Int × List Mod)) : List (Int × List Mod) → List
   | (k, v) :: r => mergeInternal (extendKey c k v) r
 
 /-- `add_internal_mods(mods, append)`: without `append` the whole dict is *replaced* -/
-def addInternal (cur : Option (List (Int × List Mod))) (im : List (Int × List Mod)) (append : Bool) :
+def addInternalDict (cur : Option (List (Int × List Mod))) (im : List (Int × List Mod)) (append : Bool) :
     Option (List (Int × List Mod)) :=
   if !append then some im
   else match cur with
@@ -118,7 +118,7 @@ def addModDict (a : Annotation) (d : ModDict) (append : Bool := false) : Annotat
   let a := { a with charge := onKey d .charge setCharge a.charge }
   let a := { a with adducts := onKey d .adducts (addList a.adducts · append) a.adducts }
   let im := intEntries d
-  if im.length > 0 then { a with internal := addInternal a.internal im append } else a
+  if im.length > 0 then { a with internal := addInternalDict a.internal im append } else a
 
 /-- `strip()` / `strip(inplace=True)`: only the sequence stays -/
 def strip (a : Annotation) : Annotation := { seq := a.seq }
@@ -146,7 +146,7 @@ def ptPopMods (a : Annotation) : List Char × ModDict := (a.seq, modDict a)
 def stripMods (a : Annotation) : List Char := a.seq
 
 /-- `pt.add_mods(annotation, mods, append)` before serialisation (default `append = True`) -/
-def addMods (a : Annotation) (d : ModDict) (append : Bool := true) : Annotation := addModDict a d append
+def ptAddMods (a : Annotation) (d : ModDict) (append : Bool := true) : Annotation := addModDict a d append
 
 /-! ### create_annotation and its input normalisation -/
 
